@@ -30,7 +30,7 @@ PROP_MODULES = {
     "C14": [("C14", r".*"), ("C14Full", r".*")],
     "C11": [("C11", r".*"), ("C11Full", r".*")],
     "C12": [("C12", r".*"), ("C12Full", r".*")],
-    "C13": [("C13", r".*"), ("C13Full", r".*")],
+    "C13": [("C13", r".*"), ("C13Full", r".*"), ("C13Count", r".*")],
     "C09": [("C09", r".*"), ("CodeTies", r"swap_tie|lex_tie|lex_fun_tie|degCompare_tie|wdeglex_tie|wdegrevlex_tie|deglex_tie|degrevlex_tie")],
     "C19": [("C19", r".*"), ("CodeTies", r"boundSqrt_tie|boundLog2_tie|pow_tie|gcd_tie"), ("CodeTies2", r"fpp_")],
     "C03": [("C03", r".*"), ("C01", r"define_lawful|define_any_lawful|define_elements|elements_ext|descOK"), ("C01Prime", r"multGenerator|isGenerator"), ("GenTies", r"DefineConds|ffDefineCases"), ("CodeTies2", r"fpp_")],
